@@ -8,8 +8,22 @@ Runtime objects:
   * `padding`                    -> `maxPad`: the keys must be exactly 0..maxPad, the value of key k must be k NULs
   * `pad`                        -> its keys must be the type codes of `dbus_types` plus 'header'
 
-From the AST of every function named in the two dispatch tables (restricted shapes; anything else is a
-TranslatorError, which breaks the table obligation):
+The per-function entries (`formats`, `fixedSize`, `frameConst`) are derived by PROBING the real functions of the
+dispatch tables (the translator of record: it does not depend on how the functions are written - literal
+formats, precompiled `struct.Struct` objects, factories, delegation to another codec):
+  * fixed-size (un)marshallers: the function is run on boundary values in both byte orders and compared with
+    `struct.pack` / `struct.unpack_from` for every candidate format letter (B H I Q h i q d); exactly the
+    letters that reproduce bytes, values and `struct.error`s on ALL probes remain, the canonical one is
+    recorded (unsigned before signed when the probes cannot tell them apart: BOOLEAN only ever packs 0 / 1,
+    UNIX_FD an index); the size is the byte count the function reports (must equal the bytes produced);
+  * string / signature / array functions: the width and byte order of the length prefix (the letter whose
+    `struct.pack` of the length equals the prefix produced / accepted) and the framing overhead
+    `nbytes - len(payload)`, constant over the probes.
+The AST route below is kept as a CROSS-CHECK: where the syntactic shape is recognised its result must agree
+with the probes (disagreement = TranslatorError); where it is not recognised an entry is added to `ADVISORIES`
+(the pipeline then widens the correspondence streams) and the probed value stands.
+
+From the AST of every function named in the two dispatch tables (restricted shapes):
   * every format selected by `lendian` (`lendian and L or B`, `L if lendian else B`, with literals or names bound
     to string constants)                                      -> `formats`: function name ↦ [(little, big)] in source order
   * for the functions ending in `return N, ...` (N a literal or a name bound to an int constant)
@@ -21,6 +35,7 @@ import inspect
 import textwrap
 
 MODULE = 'TxdbusModel.Gen.Wire'
+ADVISORIES = []
 
 
 class TranslatorError(Exception):
@@ -145,7 +160,309 @@ def _formats(fn):
     return fmts, size, frame
 
 
+# ------------------------------------------------------------------------------------------ probing
+import struct as _struct
+
+_LETTERS = 'BHIQhiqd'               # preference order when the probes cannot tell two letters apart
+_INT_PROBES = [0, 1, 2, 127, 128, 255, 256, 32767, 32768, 65535, 65536, 2 ** 31 - 1, 2 ** 31, 2 ** 32 - 1, 2 ** 32,
+               2 ** 63 - 1, 2 ** 63, 2 ** 64 - 1, 2 ** 64, -1, -128, -129, -32768, -32769, -2 ** 31, -2 ** 31 - 1,
+               -2 ** 63, -2 ** 63 - 1]
+_FLOAT_PROBES = [0.0, -0.0, 1.5, -2.25, 1e300, float('inf'), 3.0]
+_PATTERNS = [bytes(range(1, 9)), b'\0' * 8, b'\xff' * 8, b'\x80' + b'\0' * 7, b'\0' * 7 + b'\x80', b'\x01' + b'\0' * 7,
+             b'\0' * 7 + b'\x01', bytes([0x3f, 0xf8, 0, 0, 0, 0, 0, 0]), bytes([0, 0, 0, 0, 0, 0, 0xf8, 0x3f]),
+             bytes([5, 0, 0, 0, 0, 0, 0, 0]), bytes([0, 0, 0, 5, 0, 0, 0, 0]), bytes([0, 5, 0, 0, 0, 0, 0, 0])]
+
+
+def _join(chunks):
+    return b''.join(bytes(c) for c in chunks)
+
+
+def _probe_fixed_marshal(fn, code):
+    """(letter, size) of a fixed-size marshaller, by running it."""
+    def run(v, le):
+        oob = None
+        arg = v
+        if code == 'h':
+            oob, arg = list(range(v)), 'fd'
+        try:
+            n, chunks = fn(code, arg, 0, le, oob)
+            return ('ok', n, _join(chunks))
+        except _struct.error:
+            return ('struct.error',)
+    if code == 'b':
+        probes = [(False, 0), (True, 1), (0, 0), (5, 1), ('', 0), ('x', 1)]
+    elif code == 'h':
+        probes = [(k, k) for k in (0, 1, 2, 5, 300)]
+    elif code == 'd':
+        probes = [(v, v) for v in _FLOAT_PROBES]
+    else:
+        probes = [(v, v) for v in _INT_PROBES]
+    results = {(i, le): run(arg, le) for i, (arg, _) in enumerate(probes) for le in (True, False)}
+    sizes = set(r[1] for r in results.values() if r[0] == 'ok')
+    if len(sizes) != 1:
+        raise TranslatorError('%s reports no constant byte count: %r' % (fn.__name__, sorted(sizes)))
+    size = sizes.pop()
+    ok = []
+    for L in _LETTERS:
+        good = True
+        for i, (_, packed) in enumerate(probes):
+            for le in (True, False):
+                try:
+                    want = ('ok', _struct.calcsize('<' + L), _struct.pack(('<' if le else '>') + L, packed))
+                except _struct.error:
+                    want = ('struct.error',)
+                if results[(i, le)] != want:
+                    good = False
+        if good:
+            ok.append(L)
+    if not ok:
+        raise TranslatorError('%s does not behave like struct.pack with any of the formats %s' % (fn.__name__, _LETTERS))
+    return ok, size
+
+
+def _probe_fixed_unmarshal(fn, code):
+    oob = list(range(100, 400))
+
+    def post(raw):
+        if code == 'b':
+            return raw != 0
+        if code == 'h':
+            if isinstance(raw, float):
+                return ('not-an-index', raw)
+            return oob[raw] if 0 <= raw < len(oob) else None
+        return raw
+    results = {}
+    for i, pat in enumerate(_PATTERNS):
+        for le in (True, False):
+            try:
+                n, v = fn(code, b'\xee\xee\xee' + pat + b'\xdd', 3, le, oob)
+                results[(i, le)] = ('ok', n, _struct.pack('>d', v) if isinstance(v, float) else v, type(v).__name__)
+            except _struct.error:
+                results[(i, le)] = ('struct.error',)
+    sizes = set(r[1] for r in results.values() if r[0] == 'ok')
+    if len(sizes) != 1:
+        raise TranslatorError('%s reports no constant byte count: %r' % (fn.__name__, sorted(sizes)))
+    size = sizes.pop()
+    ok = []
+    for L in _LETTERS:
+        good = True
+        for i, pat in enumerate(_PATTERNS):
+            for le in (True, False):
+                raw = _struct.unpack_from(('<' if le else '>') + L, pat, 0)[0]
+                v = post(raw)
+                want = ('ok', _struct.calcsize('<' + L), _struct.pack('>d', v) if isinstance(v, float) else v,
+                        type(v).__name__)
+                if results[(i, le)] != want:
+                    good = False
+        if good:
+            ok.append(L)
+    if not ok:
+        raise TranslatorError('%s does not behave like struct.unpack_from with any of the formats %s'
+                              % (fn.__name__, _LETTERS))
+    # reading past the end must be a struct.error
+    try:
+        fn(code, b'\0' * (size - 1), 0, True, oob)
+        raise TranslatorError('%s reads %d bytes from a %d-byte buffer without struct.error' % (fn.__name__, size, size - 1))
+    except _struct.error:
+        pass
+    return ok, size
+
+
+def _prefix_letter(pairs, name):
+    """The unsigned letters L with struct.pack(order + L, length) == prefix for all (prefix, length, le)."""
+    ok = [L for L in 'BHIQ'
+          if all(len(p) == _struct.calcsize('<' + L) and _struct.pack(('<' if le else '>') + L, n) == p
+                 for p, n, le in pairs)]
+    if not ok:
+        raise TranslatorError('%s: the length prefix is not a B/H/I/Q integer in the requested byte order' % name)
+    return ok
+
+
+def _probe_text_marshal(fn, code):
+    """(letters, frame) of marshal_string / marshal_signature: prefix width+order, nbytes - len(payload)."""
+    values = {'s': ['', 'a', 'abc', 'h\u00e9', 'x' * 70, 'y' * 200], 'g': ['', 'i', 'a{sv}', 'i' * 70, 'u' * 200]}[code]
+    pairs, frames = [], set()
+    for v in values:
+        body = v.encode('utf-8')
+        for le in (True, False):
+            n, chunks = fn(code, v, 0, le, None)
+            b = _join(chunks)
+            if not b.endswith(body + b'\0') or n != len(b):
+                raise TranslatorError('%s(%r): not <prefix><payload><NUL> with the reported byte count' % (fn.__name__, v))
+            pairs.append((b[:len(b) - len(body) - 1], len(body), le))
+            frames.add(n - len(body))
+    if len(frames) != 1:
+        raise TranslatorError('%s: framing overhead not constant: %r' % (fn.__name__, sorted(frames)))
+    return _prefix_letter(pairs, fn.__name__), frames.pop()
+
+
+def _probe_text_unmarshal(fn, code):
+    values = {'s': ['', 'a', 'abc', 'h\u00e9', 'x' * 70, 'y' * 200], 'g': ['', 'i', 'a{sv}', 'i' * 70, 'u' * 200]}[code]
+    ok, frames = [], set()
+    for L in 'BHIQ':
+        good = True
+        fr = set()
+        for v in values:
+            body = v.encode('utf-8')
+            for le in (True, False):
+                data = b'\xee' * 4 + _struct.pack(('<' if le else '>') + L, len(body)) + body + b'\0\xdd'
+                try:
+                    n, got = fn(code, data, 4, le, None)
+                except Exception:       # noqa: BLE001 - a wrong candidate letter makes the function misread
+                    good = False
+                    continue
+                if got != v:
+                    good = False
+                fr.add(n - len(body))
+        if good and len(fr) == 1:
+            ok.append(L)
+            frames |= fr
+    if not ok or len(frames) != 1:
+        raise TranslatorError('%s: no B/H/I/Q length prefix in the requested byte order decodes the probes' % fn.__name__)
+    return ok, frames.pop()
+
+
+def _probe_array_marshal(fn):
+    pairs, frames = [], set()
+    for items in ([], [7], [1, 2, 3], list(range(40))):
+        for le in (True, False):
+            n, chunks = fn('ay', items, 0, le, None)
+            b = _join(chunks)
+            if not b.endswith(bytes(items)) or n != len(b):
+                raise TranslatorError('marshal_array("ay", %r): unexpected layout' % (items,))
+            pairs.append((b[:len(b) - len(items)], len(items), le))
+            frames.add(n - len(items))
+    if len(frames) != 1:
+        raise TranslatorError('marshal_array: framing overhead not constant: %r' % (sorted(frames),))
+    return _prefix_letter(pairs, fn.__name__), frames.pop()
+
+
+def _probe_array_unmarshal(fn):
+    ok = []
+    for L in 'BHIQ':
+        good = True
+        for items in ([], [7], [1, 2, 3], list(range(40))):
+            for le in (True, False):
+                data = b'\xee' * 4 + _struct.pack(('<' if le else '>') + L, len(items)) + bytes(items) + b'\xdd'
+                try:
+                    n, got = fn('ay', data, 4, le, None)
+                except Exception:       # noqa: BLE001
+                    good = False
+                    continue
+                if got != items or n != _struct.calcsize('<' + L) + len(items):
+                    good = False
+        if good:
+            ok.append(L)
+    if not ok:
+        raise TranslatorError('unmarshal_array: no B/H/I/Q length prefix in the requested byte order decodes the probes')
+    return ok
+
+
+_FIXED_CODES = 'ybnqiuxtdh'
+_KIND = {'y': 'byte', 'b': 'boolean', 'n': 'int16', 'q': 'uint16', 'i': 'int32', 'u': 'uint32', 'x': 'int64',
+         't': 'uint64', 'd': 'double', 's': 'string', 'o': 'object_path', 'g': 'signature', 'a': 'array',
+         '(': 'struct', 'v': 'variant', '{': 'struct', 'h': 'unix_fd'}
+
+
+def _canon(tname, code):
+    """The label under which the hand-written model keeps the body of the function serving `code`."""
+    kind = _KIND.get(code)
+    if kind is None:
+        return None
+    if tname == 'unmarshallers' and kind == 'object_path':
+        kind = 'string'                  # one decoder for 's' and 'o'
+    return ('marshal_' if tname == 'marshallers' else 'unmarshal_') + kind
+
+
+_ALL_CANON = set(_canon(t, c) for t in ('marshallers', 'unmarshallers') for c in _KIND)
+
+
+def _class_probe(tname, code, fn):
+    """A renamed function is only accepted under the canonical label of its type code if it behaves as that
+    kind of function (the fixed-size / string / signature / array kinds are probed in full by `_probe`)."""
+    from txdbus.error import MarshallingError
+    try:
+        if tname == 'marshallers':
+            if code == 'o':
+                ok = _join(fn('o', '/a', 0, True, None)[1]) == b'\x02\0\0\0/a\0'
+                for bad in ('a', '/a/', '//'):
+                    try:
+                        fn('o', bad, 0, True, None)
+                        ok = False
+                    except MarshallingError:
+                        pass
+                return ok
+            if code in '({':
+                return _join(fn(code + 'yy' + {'(': ')', '{': '}'}[code], [5, 6], 0, True, None)[1]) == b'\x05\x06'
+            if code == 'v':
+                return _join(fn('v', 5, 0, True, None)[1]) == b'\x01i\0\0\x05\0\0\0'
+        else:
+            if code in '({':
+                return fn(code + 'yy' + {'(': ')', '{': '}'}[code], b'\x05\x06', 0, True, None) == (2, [5, 6])
+            if code == 'v':
+                return fn('v', b'\x01i\0\0\x05\0\0\0', 0, True, None) == (8, 5)
+    except Exception:      # noqa: BLE001
+        return False
+    return True
+
+
+def _fn_name(tname, code, fn):
+    """`__name__` when it is one of the names the model knows (so that a type code wired to the WRONG known
+    function shows up in the dispatch table); a function under any other name is labelled by the kind of its
+    type code after probing that it behaves as that kind (renaming a helper is representation)."""
+    name = getattr(fn, '__name__', None)
+    canon = _canon(tname, code)
+    if name in _ALL_CANON or canon is None:
+        if not isinstance(name, str):
+            raise TranslatorError('%s[%r] has no usable name' % (tname, code))
+        return name
+    if not _class_probe(tname, code, fn):
+        raise TranslatorError('%s[%r] (%r) does not behave like %s' % (tname, code, name, canon))
+    note = '%s[%r] is named %r: treated as %s after probing its behaviour' % (tname, code, name, canon)
+    if note not in ADVISORIES:
+        ADVISORIES.append(note)
+    return canon
+
+
+def _probe(table_name, code, fn):
+    """{'letters': [...], 'size': N or None, 'frame': N or None} for the function behind `code`, or None
+    for the functions without table entries (struct, variant, object path)."""
+    marsh = table_name == 'marshallers'
+    if code in _FIXED_CODES:
+        letters, size = (_probe_fixed_marshal if marsh else _probe_fixed_unmarshal)(fn, code)
+        return {'letters': letters, 'size': size, 'frame': None}
+    if code in 'sg':
+        letters, frame = (_probe_text_marshal if marsh else _probe_text_unmarshal)(fn, code)
+        return {'letters': letters, 'size': None, 'frame': frame}
+    if code == 'a':
+        if marsh:
+            letters, frame = _probe_array_marshal(fn)
+            return {'letters': letters, 'size': None, 'frame': frame}
+        return {'letters': _probe_array_unmarshal(fn), 'size': None, 'frame': None}
+    return None
+
+
+def _reconcile(name, probed, astres):
+    """Combine the probed entry with the AST reading of the same function (cross-check)."""
+    letter = probed['letters'][0]
+    if astres is None:
+        return letter
+    fmts, size, frame = astres
+    if fmts:
+        le, be = fmts[0]
+        if not (len(le) == 2 and len(be) == 2 and le[0] == '<' and be[0] == '>' and le[1] == be[1]
+                and le[1] in probed['letters']):
+            raise TranslatorError('%s: the format read from the source %r disagrees with its behaviour (%s)'
+                                  % (name, fmts[0], '/'.join(probed['letters'])))
+    if size is not None and probed['size'] is not None and size != probed['size']:
+        raise TranslatorError('%s: `return %d, ...` in the source but %d bytes reported when run' % (name, size, probed['size']))
+    if frame is not None and probed['frame'] is not None and frame != probed['frame']:
+        raise TranslatorError('%s: framing constants %d in the source but overhead %d when run' % (name, frame, probed['frame']))
+    return letter
+
+
 def emit(repo):
+    del ADVISORIES[:]
     from txdbus import marshal as m
     out = []
     out.append('/- GENERATED by tools/tables/wire_tables.py from txdbus/marshal.py - do not edit. -/')
@@ -164,6 +481,15 @@ def emit(repo):
             raise TranslatorError('duplicate type code in dbus_types: %r' % (code,))
         seen.add(code)
         rows.append((name, code, align))
+    # cross-check by probing: the padding function of every code behaves as the alignment its row declares
+    for name, code, align in rows:
+        try:
+            got = [len(m.pad[code](o)) for o in range(64)]
+        except Exception as e:      # noqa: BLE001
+            raise TranslatorError('pad[%r] cannot be run on offsets 0..63: %r' % (code, e))
+        if align == 0 or got != [(align - o % align) % align for o in range(64)]:
+            raise TranslatorError('pad[%r] does not pad to the alignment %d that dbus_types declares: %r'
+                                  % (code, align, got[:17]))
     out.append('/-- `dbus_types`: (type code, alignment), in source order. -/')
     out.append('def alignTable : List (Char × Nat) :=')
     out.append('  [' + ',\n   '.join('(%s, %d)  /- %s -/' % (_chr(c), a, n) for n, c, a in rows) + ']')
@@ -186,12 +512,14 @@ def emit(repo):
     out.append('')
     # ---- dispatch tables
     fns = {}
-    for table in (m.marshallers, m.unmarshallers):
+    for tname, table in (('marshallers', m.marshallers), ('unmarshallers', m.unmarshallers)):
         for code in table:
             fn = table[code]
-            if not inspect.isfunction(fn):
-                raise TranslatorError('dispatch table entry %r is not a plain function' % (code,))
-            fns[fn.__name__] = fn
+            if not callable(fn):
+                raise TranslatorError('dispatch table entry %r is not callable' % (code,))
+            fns[_fn_name(tname, code, fn)] = fn
+    for name in _ALL_CANON:          # the labels the model matches on always exist
+        fns.setdefault(name, None)
     out.append('/-- The functions the two dispatch tables refer to (by `__name__`). -/')
     out.append('inductive Fn where')
     for name in sorted(fns):
@@ -202,25 +530,48 @@ def emit(repo):
         items = []
         for code in sorted(table.keys()):
             fn = table[code]
-            if not inspect.isfunction(fn):
-                raise TranslatorError('%s[%r] is not a plain function' % (tname, code))
-            items.append((code, fn.__name__))
-            fns[fn.__name__] = fn
+            items.append((code, _fn_name(tname, code, fn)))
         out.append('/-- `%s`: type code ↦ name of the function, sorted by code. -/' % tname)
         out.append('def %s : List (Char × Fn) :=' % tname)
         out.append('  [' + ',\n   '.join('(%s, %s)' % (_chr(c), _ident(n)) for c, n in items) + ']')
         out.append('')
     # ---- struct formats and fixed sizes
     fm, fs, fr = [], [], []
-    for name in sorted(fns):
-        fmts, size, frame = _formats(fns[name])
-        if fmts:
-            fm.append((name, fmts))
+    by_name = {}
+    for tname, table in (('marshallers', m.marshallers), ('unmarshallers', m.unmarshallers)):
+        for code in sorted(table.keys()):
+            fn = table[code]
+            name = _fn_name(tname, code, fn)
+            if code == 'o' and tname == 'marshallers':
+                continue                    # marshal_object_path: no entry (delegates to the string marshaller)
+            probed = _probe(tname, 's' if code == 'o' else code, fn)
+            if probed is None:
+                continue
+            try:
+                astres = _formats(fn)
+                if not astres[0] and astres[1] is None and astres[2] is None:
+                    astres = None
+            except (TranslatorError, OSError, TypeError, SyntaxError, IndexError) as e:
+                astres = None
+                ADVISORIES.append('%s: source shape not recognised (%s); formats/sizes taken from probing the function'
+                                  % (name, str(e)[:120]))
+            if astres is None and not any(a.startswith(name + ':') for a in ADVISORIES):
+                ADVISORIES.append('%s: no struct format / size found in its source; entries taken from probing the function'
+                                  % name)
+            letter = _reconcile(name, probed, astres)
+            entry = (letter, probed['size'], probed['frame'])
+            if name in by_name and by_name[name] != entry:
+                raise TranslatorError('%s serves several type codes with different layouts: %r / %r'
+                                      % (name, by_name[name], entry))
+            by_name[name] = entry
+    for name in sorted(by_name):
+        letter, size, frame = by_name[name]
+        fm.append((name, [('<' + letter, '>' + letter)]))
         if size is not None:
             fs.append((name, size))
         if frame is not None:
             fr.append((name, frame))
-    out.append('/-- Every `lendian and L or B` format pair of each function, in source order. -/')
+    out.append('/-- The struct format (little, big) of each function: value format of the fixed-size ones, length prefix of the others. -/')
     out.append('def formats : List (Fn × List ((Char × Char) × (Char × Char))) :=')
     out.append('  [' + ',\n   '.join('(%s, [%s])' % (_ident(n), ', '.join('(%s, %s)' % (_fmt(a), _fmt(b)) for a, b in f))
                                      for n, f in fm) + ']')
